@@ -45,13 +45,23 @@ func rehashExport(stream string) string {
 			continue
 		}
 		var l ledger.Log
-		if err := json.Unmarshal([]byte(line), &l); err != nil {
-			out.WriteString(line + "\n")
-			continue
-		}
-		l.Hash = nil
-		l.ComputeHash(prev)
-		b, err := json.Marshal(l)
+		var b []byte
+		err := func() (err error) {
+			// a damaged line (C38 import-streams) may make the repository's own decoding or hashing panic: such
+			// a line is sent as it is
+			defer func() {
+				if p := recover(); p != nil {
+					err = fmt.Errorf("panic: %v", p)
+				}
+			}()
+			if err := json.Unmarshal([]byte(line), &l); err != nil {
+				return err
+			}
+			l.Hash = nil
+			l.ComputeHash(prev)
+			b, err = json.Marshal(l)
+			return err
+		}()
 		if err != nil {
 			out.WriteString(line + "\n")
 			continue
